@@ -333,16 +333,7 @@ func TestC20Determinism(t *testing.T) {
 			c.Failf("C20/construct-panic", "NewGenesis panicked: %v", base.panicv)
 			return
 		}
-		dump0, stored0, err := initDump(tempDir(c), cfg)
-		if err != nil {
-			c.Failf("C20/init-failed", "chain.Init on a fresh database failed: %v", err)
-			return
-		}
-		if !bytes.Equal(stored0, base.mbytes) {
-			c.Failf("C20/stored-momentum-differs", "momentum stored at height 1 differs from the constructed genesis momentum")
-		}
-		c.Note("base: %s dump=%s (%d bytes)", base, shortSum(dump0), len(dump0))
-
+		var dump0 string
 		same := func(key, what string, other *genesis.GenesisConfig, withDump bool) {
 			b := construct(other)
 			if b.panicv != nil {
@@ -374,6 +365,17 @@ func TestC20Determinism(t *testing.T) {
 
 		// (a) repetition in this process: the same object, a deep copy, a fresh materialisation
 		same("C20/nondeterministic-repeat", "second construction from the same object", cfg, false)
+		d0, stored0, err := initDump(tempDir(c), cfg)
+		dump0 = d0
+		if err != nil {
+			c.Failf("C20/init-failed", "chain.Init on a fresh database failed: %v", err)
+			return
+		}
+		if !bytes.Equal(stored0, base.mbytes) {
+			c.Failf("C20/stored-momentum-differs", "momentum stored at height 1 differs from the constructed genesis momentum")
+		}
+		c.Note("base: %s dump=%s (%d bytes)", base, shortSum(dump0), len(dump0))
+
 		same("C20/nondeterministic-repeat", "construction from a deep copy", cloneCfg(cfg), true)
 		if !colliding {
 			same("C20/nondeterministic-repeat", "construction from a fresh materialisation", m.config(), false)
@@ -479,7 +481,8 @@ var perturbKinds = []string{"balance+1", "balance-1", "supply+1", "supply-1", "p
 
 // perturb applies one single-entry perturbation in place. ok=false: not applicable to this
 // configuration. vacuous names the contract whose block is absent when the perturbation can only
-// be noticed through that block.
+// be noticed through that block (for the observation-only kind "null-amount" it carries the
+// name of the nulled field instead).
 func perturb(c *pbt.C, cfg *genesis.GenesisConfig, kind string) (descr string, ok bool, vacuous string) {
 	blocks := cfg.GenesisBlocks.Blocks
 	pickEntry := func(positive bool) (*genesis.GenesisBlockConfig, types.ZenonTokenStandard, bool) {
